@@ -243,6 +243,8 @@ def c11(res: CheckResult) -> None:
     res.assumptions = COMMON_ASSUMPTIONS
     call_unit(res, "a fault of every kind at every crossing of a checked call, then probes",
               list(F.fam_fault(res.tier, rng)), ic, require_outcomes=["ret", "Violation", "KI", "Exception"])
+    call_unit(res, "public methods / setters / __setattr__ that leave the invariant broken and raise: the body's exception "
+                   "reaches the caller", list(F.fam_break_raise(res.tier, rng)), ic, require_outcomes=["Exception", "KI", "Violation"])
     call_unit(res, "cancellation / close at every suspension point of an async call, then a probe",
               list(F.fam_cancel(res.tier, rng)), ic, require_outcomes=["ret", "Cancelled"])
     call_unit(res, "nested constructor calls (super().__init__) returning inside a running constructor: the suspension "
